@@ -84,7 +84,9 @@ static int line_to_instr(struct instr *instr_data, char *filtered_asm_str) {
       instr_data->opd[m_index].str[0] == '\0' &&
       instr_data->opd[m_index].sib[0] == '\0') {
     instr_data->mod_disp &= MOD16;
-    instr_data->opd[m_index].reg = spl;
+    // the 'no base' ModRM value; sized like a 64-bit base so that the operand
+    // size comes from the keyword (default qword) and not from 'spl'
+    instr_data->opd[m_index].reg = reg64 | spl;
   }
   // convert instruction string to enum representation
   instr_data->key = str_to_instr_key(instr_data->instruction, opd_format);
